@@ -202,6 +202,7 @@ def carriesLabel (commentHex : String) : Bool :=
 def returnedCerts : List CAReply → Option Nat
   | .certs n _ :: _ => some n
   | .plainKey :: _ => some 0
+  | .mixed n m :: _ => some (n + m)
   | _ => none
 
 def c03 (i : RunIn) (pre : List OIdent) (o : ORun) : List String :=
